@@ -18,8 +18,10 @@ BUILD = os.path.join(VERIF, ".build")
 TARGET = os.path.join(BUILD, "target")
 GUARD = "bytecodealliance_wit_bindgen_verif"
 ALLOWED_AXIOMS = {"propext", "Classical.choice", "Quot.sound"}
+FORBIDDEN_EXTRA_NOTE = "partial def / opaque / @[extern] / @[csimp] are forbidden in model and proof sources"
 FORBIDDEN = [r"\bsorry\b", r"\badmit\b", r"^\s*axiom\s", r"\bnative_decide\b",
-             r"\bimplemented_by\b", r"\bunsafe\s", r"maxHeartbeats\s+0\b"]
+             r"\bimplemented_by\b", r"\bunsafe\s", r"maxHeartbeats\s+0\b",
+             r"\bpartial\s+def\b", r"^\s*opaque\s", r"@\[\s*extern\b", r"@\[\s*csimp\b"]
 TRUSTED_BASE = [
     "Lean 4.33.0 kernel (lake build; thorough tier re-checks with leanchecker)",
     "axioms allowed: propext, Classical.choice, Quot.sound (audited with #print axioms on every property theorem)",
@@ -111,6 +113,24 @@ def lake_lock():
             fcntl.flock(f, fcntl.LOCK_UN)
 
 
+def run_lock():
+    """Exclusive lock held for a whole check run (released when the returned file is closed or the
+    process exits).  Waits at most VERIF_LOCK_WAIT seconds (default 6 h) for another run, then goes on
+    without the lock rather than never answering."""
+    os.makedirs(BUILD, exist_ok=True)
+    f = open(os.path.join(BUILD, "run.lock"), "w")
+    deadline = time.time() + float(os.environ.get("VERIF_LOCK_WAIT", "21600"))
+    while True:
+        try:
+            fcntl.flock(f, fcntl.LOCK_EX | fcntl.LOCK_NB)
+            return f
+        except OSError:
+            if time.time() > deadline:
+                print("NOTE: another check still holds .build/run.lock; continuing without it", file=sys.stderr)
+                return f
+            time.sleep(2)
+
+
 class Check:
     def __init__(self, pid, tier, seed):
         self.pid, self.tier, self.seed = pid, tier, seed
@@ -138,7 +158,10 @@ class Check:
         cmd = ["lake", "build"] + targets
         self.checker_cmds.append("cd lean && " + " ".join(cmd))
         with lake_lock():           # lake has no build lock of its own: serialise concurrent checks
-            rc, out = sh(cmd, cwd=LEAN, timeout=3000)
+            try:
+                rc, out = sh(cmd, cwd=LEAN, timeout=6000)
+            except subprocess.TimeoutExpired:
+                rc, out = 124, "error: lake build timed out after 6000 s"
         if rc != 0:
             errs = [l for l in out.split("\n") if "error" in l][:20]
             self.broken.append(("lake build " + " ".join(targets), "\n".join(errs) or out[-2000:]))
@@ -302,7 +325,7 @@ class Check:
         for v in self.violations:
             if v["class"] in known_classes:
                 seen_known.setdefault(v["class"], v)
-        rdir = os.path.join(os.environ.get("VERIF_REPLAY_DIR", os.path.join(VERIF, "replays")), self.pid)
+        rdir = os.path.join(os.environ.get("VERIF_REPLAY_DIR", os.path.join(VERIF, "replays" if REPO == "/repo" else ".build/replays-other-repo")), self.pid)
         lines, rc = [], 0
         for cls, v in seen_known.items():
             lines.append(f"KNOWN-FINDING: property={self.pid} {known_classes[cls].get('what', v['what'])}")
@@ -350,7 +373,9 @@ class Check:
         ev = {"property_id": self.pid, "tier": self.tier, "seed": self.seed, "level": self.level,
               "coverage": cov, "assumptions": self.assumptions,
               "wall_s": round(time.time() - self.t0, 2), "violations": len(new_v) + (1 if self.broken and not new_v else 0)}
-        evdir = os.environ.get("VERIF_EVIDENCE_DIR", os.path.join(VERIF, "evidence"))
+        # evidence/ and replays/ only ever describe runs against /repo itself; a run against another copy
+        # (VERIF_REPO, used to test the checks against seeded changes) writes under .build unless told otherwise
+        evdir = os.environ.get("VERIF_EVIDENCE_DIR", os.path.join(VERIF, "evidence" if REPO == "/repo" else ".build/evidence-other-repo"))
         os.makedirs(evdir, exist_ok=True)
         json.dump(ev, open(os.path.join(evdir, self.pid + ".json"), "w"), indent=1, sort_keys=True)
         for l in lines: print(l)
